@@ -108,6 +108,10 @@ func checkC08(c *core.Ctx) {
 				p.Inst[j].Meta["txt"] = strings.Repeat("t", []int{127, 128, 129, 16383, 16384, 20000}[r.Intn(6)])
 			}
 		}
+		// dynamics written as numbers (crd may refuse them; whatever it accepts must still give paired notes)
+		if r.Intn(8) == 0 {
+			p.Inst[r.Intn(len(p.Inst))].Velocity = []string{"0", "\"0\"", "00", "1", "64", "127", "128", "255", "-1", "0x40", "0.5"}[r.Intn(11)]
+		}
 		var f model.Flags
 		f.Track = []int{1, 2, 3, 4, 5, 7, 8, 15, 16, 17, 31, 32, 33, 63, 64}[r.Intn(15)]
 		if r.Intn(2) == 0 {
